@@ -92,6 +92,23 @@ unsafe impl lock_api::RawRwLock for RawRwLock {
     }
 }
 
+unsafe impl lock_api::RawRwLockRecursive for RawRwLock {
+    fn lock_shared_recursive(&self) {
+        if sched::controlled() {
+            sched::point(&self.state as *const AtomicUsize as usize, Kind::SharedRecursive);
+            assert!(self.try_shared(), "scheduler let a recursive reader run on a write-locked lock");
+            return;
+        }
+        let mut n = 0;
+        while !self.try_shared() {
+            backoff(&mut n);
+        }
+    }
+    fn try_lock_shared_recursive(&self) -> bool {
+        self.try_shared()
+    }
+}
+
 unsafe impl lock_api::RawRwLockDowngrade for RawRwLock {
     unsafe fn downgrade(&self) {
         self.state.store(READER, SeqCst);
